@@ -691,6 +691,32 @@ def case_infinite(ctx, i):
                     ctx.violation('infinite:%s:bond-operators-do-not-add-up-to-H%s' % (name_, ':explicit_plus_hc' if explicit else ''),
                                   'sum over the bonds of a unit cell %r, energy per unit cell of the recorded terms %r' % (e_b, e_ref), case)
                     return
+            # segment and enlarged unit cell of the bond model: the same bond operators at the same places
+            nn_ = NearestNeighborModel(lat, Hb)
+            first_, last_ = int(rng.integers(0, L)), int(rng.integers(L, 3 * L))
+            seg_ = nn_.extract_segment(first_, last_)
+            ctx.count('infinite.bond_model_segment')
+
+            def dense_bond(hb):
+                return np.transpose(hb.to_ndarray(), [hb.get_leg_index(l) for l in ('p0', 'p1', 'p0*', 'p1*')])
+
+            if len(seg_.H_bond) != last_ - first_ + 1 or seg_.lat.N_sites != last_ - first_ + 1:
+                ctx.violation('NearestNeighborModel.extract_segment:length', '%d bonds, %d sites for segment (%d, %d)' %
+                              (len(seg_.H_bond), seg_.lat.N_sites, first_, last_), case)
+                return
+            for k_, hb in enumerate(seg_.H_bond):
+                want_ = Hb[(first_ + k_) % L]
+                if hb is None or dense_bond(hb).shape != dense_bond(want_).shape or not (np.linalg.norm(dense_bond(hb) - dense_bond(want_)) <= 1e-12):
+                    ctx.violation('NearestNeighborModel.extract_segment:wrong-bond', 'entry %d of segment (%d, %d) is not H_bond[%d]' %
+                                  (k_, first_, last_, (first_ + k_) % L), case)
+                    return
+            nn2_ = NearestNeighborModel(lat.copy(), list(Hb))
+            fac_ = int(rng.integers(2, 4))
+            nn2_.enlarge_mps_unit_cell(fac_)
+            nn2_.test_sanity()
+            if len(nn2_.H_bond) != fac_ * L or any(not (np.linalg.norm(dense_bond(nn2_.H_bond[k_]) - dense_bond(Hb[k_ % L])) <= 1e-12) for k_ in range(fac_ * L)):
+                ctx.violation('NearestNeighborModel.enlarge_mps_unit_cell:bonds', '%d bonds for factor %d of %d' % (len(nn2_.H_bond), fac_, L), case)
+                return
             be = np.asarray(NearestNeighborModel(lat, Hb).bond_energies(psi))
             exp_be = np.array([bond_diag(hb, j) for j, hb in enumerate(Hb)])
             if be.shape != exp_be.shape or not (np.max(np.abs(be - exp_be)) <= 1e-9 * max(1.0, np.max(np.abs(exp_be)))):
